@@ -4,6 +4,7 @@ package locate
 
 import (
 	"context"
+	"errors"
 	"sync/atomic"
 	"time"
 
@@ -15,7 +16,7 @@ import (
 type VerifEntry struct {
 	ID, Ver, ConfVer uint64
 	Start, End       []byte
-	Valid            bool // ttl != expiredTTL (not invalidated)
+	Valid            bool // TTL not run out (an invalidated region has ttl = expiredTTL)
 	Reload           bool // syncFlags has needReloadOnAccess
 	Leader           uint64
 	Peers            []uint64
@@ -24,7 +25,7 @@ type VerifEntry struct {
 func verifEntry(r *Region) VerifEntry {
 	e := VerifEntry{ID: r.GetID(), Ver: r.meta.GetRegionEpoch().GetVersion(), ConfVer: r.meta.GetRegionEpoch().GetConfVer(),
 		Start: r.StartKey(), End: r.EndKey(),
-		Valid:  atomic.LoadInt64(&r.ttl) != expiredTTL,
+		Valid:  atomic.LoadInt64(&r.ttl) >= time.Now().Unix(),
 		Reload: r.checkSyncFlags(needReloadOnAccess),
 		Leader: r.GetLeaderStoreID()}
 	for _, p := range r.meta.Peers {
@@ -102,4 +103,26 @@ func (c *RegionCache) VerifEpochNotMatch(bo *retry.Backoffer, v RegionVerID, cur
 	ctx := &RPCContext{Region: v, Meta: r.meta, Peer: peer, AccessIdx: aidx, Store: store}
 	retry, err = c.OnRegionEpochNotMatch(bo, ctx, current)
 	return true, retry, err
+}
+
+// VerifExpire lets the TTL of the cached region run out (without the invalidation marker).
+func (c *RegionCache) VerifExpire(v RegionVerID) bool {
+	r := c.GetCachedRegionWithRLock(v)
+	if r == nil {
+		return false
+	}
+	atomic.StoreInt64(&r.ttl, time.Now().Unix()-1000)
+	return true
+}
+
+// VerifSendFail calls OnSendFail with the context a request to the region's work peer would carry.
+func (c *RegionCache) VerifSendFail(bo *retry.Backoffer, v RegionVerID, scheduleReload bool) bool {
+	r := c.GetCachedRegionWithRLock(v)
+	if r == nil {
+		return false
+	}
+	store, peer, aidx, _ := r.WorkStorePeer(r.getStore())
+	ctx := &RPCContext{Region: v, Meta: r.meta, Peer: peer, AccessIdx: aidx, Store: store, AccessMode: tiKVOnly}
+	c.OnSendFail(bo, ctx, scheduleReload, errors.New("verif: send fail"))
+	return true
 }
